@@ -78,10 +78,10 @@ Lemma first_record_zero_lemma v : Qeq (hours_between v v) 0.
 Proof. destruct v as [h|d h|]; cbn [hours_between]; [ring | rewrite Z.sub_diag; ring | reflexivity]. Qed.
 
 (* ---- binary64 model after fix a9224f5: every clock time h:m is held as exactly (h*60+m)*60e9 nanoseconds --------- *)
-Definition clock_ok (hm : nat * nat) : bool :=
-  Z.eqb (ns_of_hours (clock_hours (fst hm) (snd hm))) (Z.of_nat ((fst hm * 60 + snd hm) * 60) * 1000000000).
+Definition clock_ok (h m : nat) : bool :=
+  Z.eqb (ns_of_hours (clock_hours h m)) (Z.of_nat ((h * 60 + m) * 60) * 1000000000).
 
-Lemma clock_split_all : forallb clock_ok (list_prod (seq 0 24) (seq 0 60)) = true.
+Lemma clock_split_all : forallb (fun h => forallb (fun m => clock_ok h m) (seq 0 60)) (seq 0 24) = true.
 Proof. vm_cast_no_check (eq_refl true). Qed.
 
 Lemma clock_split_exact_lemma (h m : nat) :
@@ -89,8 +89,10 @@ Lemma clock_split_exact_lemma (h m : nat) :
   ns_of_hours (clock_hours h m) = Z.of_nat ((h * 60 + m) * 60) * 1000000000.
 Proof.
   intros Hh Hm. pose proof clock_split_all as H. rewrite forallb_forall in H.
-  assert (In (h, m) (list_prod (seq 0 24) (seq 0 60))) as Hin by (apply in_prod; apply in_seq; lia).
-  specialize (H (h, m) Hin). unfold clock_ok in H. cbn [fst snd] in H. apply Z.eqb_eq in H. exact H.
+  assert (In h (seq 0 24)) as Hin by (apply in_seq; lia). specialize (H h Hin). rewrite forallb_forall in H.
+  assert (In m (seq 0 60)) as Hin2 by (apply in_seq; lia). specialize (H m Hin2).
+  revert H. unfold clock_ok. generalize (ns_of_hours (clock_hours h m)). generalize (Z.of_nat ((h * 60 + m) * 60) * 1000000000).
+  intros a b H. apply Z.eqb_eq in H. exact H.
 Qed.
 
 (* ... so the integer nanosecond difference of two Timestamps with clock times is the calendar difference *)
